@@ -19,6 +19,7 @@ type expiryManager struct {
 	timer          *time.Timer // Schedules expiration of docs
 	nextExp        *uint32     // Timestamp when expTimer will run (0 if never)
 	expirationFunc func()      // Function to call when timer expires
+	stopped        bool        // Set by stop(): the bucket is shutting down, nothing may run or be scheduled any more
 }
 
 func newExpirationManager(expiractionFunc func()) *expiryManager {
@@ -34,6 +35,7 @@ func newExpirationManager(expiractionFunc func()) *expiryManager {
 func (e *expiryManager) stop() {
 	e.mutex.Lock()
 	defer e.mutex.Unlock()
+	e.stopped = true
 	if e.timer != nil {
 		e.timer.Stop()
 	}
@@ -60,6 +62,9 @@ func (e *expiryManager) _clearNext() {
 // setNext sets the next expiration time and schedules an expiration to occur after that time. Requires caller to have acquired mutex.
 func (e *expiryManager) _setNext(exp uint32) {
 	debug("_setNext(%d)", exp)
+	if e.stopped {
+		return
+	}
 	e.nextExp = &exp
 	if exp == 0 {
 		e.timer = nil
@@ -104,5 +109,8 @@ func (e *expiryManager) runExpiry() {
 	verifPoint("expiry.fire", "")
 	e.mutex.Lock()
 	defer e.mutex.Unlock()
+	if e.stopped {
+		return // the timer fired while (or just before) the bucket was shut down
+	}
 	e.expirationFunc()
 }
